@@ -233,6 +233,28 @@ func (w *World) onTrafficUDP(c gnet.Conn) gnet.Action {
 			} else if err != nil || n != op.N {
 				w.violate("C08", "write", "datagram %d: SendTo of %d bytes returned (%d, %v)", idx, op.N, n, err)
 			}
+		case "sendto-bad":
+			var bad net.Addr
+			kind := 0
+			if len(op.Segs) > 0 {
+				kind = op.Segs[0]
+			}
+			switch kind {
+			case 0:
+				bad = &net.UDPAddr{IP: net.IP{10, 0, 0}, Port: 9}
+			case 1:
+				bad = &net.UDPAddr{IP: make(net.IP, 5), Port: 9}
+			case 2:
+				bad = &net.IPAddr{IP: net.IP{1, 2, 3}}
+			default:
+				bad = &net.TCPAddr{IP: make(net.IP, 17), Port: 9}
+			}
+			n, err := c.SendTo(data, bad)
+			w.probes["sendto-invalid-address"]++
+			if err == nil {
+				w.violate("C17", "sendto-invalid-address", "datagram %d: SendTo(%d bytes, %#v) returned (%d, nil): an address with an invalid IP length was converted to something", idx, op.N, bad, n)
+				w.violate("C08", "sendto-invalid-address", "datagram %d: SendTo(%d bytes, %#v) returned (%d, nil)", idx, op.N, bad, n)
+			}
 		}
 		w.checkUDPSent()
 	}
@@ -397,6 +419,10 @@ func GenerateUDP(seed uint64, tier string) *Plan {
 			op := WOp{M: []string{"write", "write", "sendto", "asyncwrite"}[r.Intn(4)], N: r.Pick(0, 1, 100, 1400, 9000)}
 			if op.M == "sendto" {
 				op.Segs = []int{r.Intn(u.Senders)}
+				if r.Chance(1, 6) {
+					// an address no conversion exists for: must be refused, not sent anywhere
+					op.M, op.Segs = "sendto-bad", []int{r.Intn(4)}
+				}
 			}
 			d.Reply = append(d.Reply, op)
 		}
